@@ -813,6 +813,24 @@ def query5(ctx) -> List[Ob]:
                 for s_ in lp.body:
                     if isinstance(s_, (ast.Assign, ast.AnnAssign)) and s_.value is not None and A.unparse(s_.targets[0] if isinstance(s_, ast.Assign) else s_.target) == subject.id:
                         sexpr = s_.value
+            # a set kept in a local in front of the loop (`names = set(scfg.graph)`) is read where it is used
+            if sexpr is not None:
+                import copy as _copy
+
+                sexpr = _copy.deepcopy(sexpr)
+                tops = {s_.targets[0].id: s_.value for s_ in A.body_without_docstring(fn.node) if isinstance(s_, ast.Assign) and len(s_.targets) == 1 and isinstance(s_.targets[0], ast.Name)}
+                n_st = {}
+                for x_ in ast.walk(fn.node):
+                    if isinstance(x_, ast.Name) and isinstance(x_.ctx, ast.Store):
+                        n_st[x_.id] = n_st.get(x_.id, 0) + 1
+
+                class _R(ast.NodeTransformer):
+                    def visit_Name(self, n_):
+                        if isinstance(n_.ctx, ast.Load) and n_.id in tops and n_st.get(n_.id) == 1 and n_.id not in (E, P, S):
+                            return _copy.deepcopy(tops[n_.id])
+                        return n_
+
+                sexpr = _R().visit(sexpr)
             nodev = tv[1] if len(tv) > 1 else f"{gparam}.graph[{k}]"
             jt_texts = {f"{nodev}.jump_targets", f"{gparam}.graph[{k}].jump_targets", f"{gparam}[{k}].jump_targets"}
             f = _set_fn(sexpr, jt_texts, gtexts, k) if sexpr is not None else None
